@@ -137,6 +137,11 @@ def base_dumps():
     ghost = [R('BSC_write', 1, (7, 0x7777, 119, 0), tid=4, ts=1), R('BSC_write', 2, (0, 119, 0, 0), tid=4, ts=2)]
     fake = b'ab' + B.TAG_THREADMAP + B.le(32, 8) + B.threadmap_entries([(4, 44, 'ghost')]) + B.TAG_EVENTS + B.le(64 * 2 + 8, 8) + b'\0' * 8 + b''.join(ghost) + b'\0' * 40
     out['v3-stackshot-holds-chunks'] = v3d(threads=[(1, 10, 'procA')], chunks=[plain[:2]], filler1=fake)
+    # both ends of a real capture: the END of a call that began before it, and a START of the same call on the same thread that is still
+    # open when it stops
+    ends = [R('BSC_read', 2, (0, 64, 0, 0), tid=1, ts=40), R('BSC_getpid', 1, tid=1, ts=41), R('BSC_getpid', 2, (0, 10, 0, 0), tid=1, ts=42),
+            R('BSC_read', 1, (9, 0x7900, 153, 0), tid=1, ts=43), R('BSC_getpid', 1, tid=1, ts=44), R('BSC_getpid', 2, (0, 10, 0, 0), tid=1, ts=45)]
+    out['v2-orphan-end-and-unfinished-start'] = v2d([(1, 10, 'procA')], 0, ends)
     # a dump without a thread map whose stream declares a thread AFTER that thread's first line
     nomap = [R('BSC_getpid', 1, tid=3, ts=30), R('BSC_getpid', 2, (0, 10, 0, 0), tid=3, ts=31), R('TRACE_DATA_NEWTHREAD', 0, (3, 20, 0, 0), tid=2, ts=32),
              R('TRACE_STRING_NEWTHREAD', 0, tid=2, ts=33, data=b'gamma'.ljust(32, b'\0')), R('BSC_getpid', 1, tid=3, ts=34), R('BSC_getpid', 2, (0, 20, 0, 0), tid=3, ts=35)]
@@ -378,7 +383,7 @@ class C06(Check):
             return STACK_CONSUMERS + ['traces', 'formatted_traces']
         if 'rename' in name:
             return CONSUMERS + FILTERED_CONSUMERS
-        if 'nomap' in name:
+        if 'nomap' in name or 'orphan' in name:
             return CONSUMERS
         if 'overlap' in name:
             return ['traces', 'formatted_traces']
